@@ -12,6 +12,7 @@ mod lang;
 mod rgen;
 mod laws;
 mod errs;
+mod session;
 
 use serde_json::Value;
 use std::fs::{File, OpenOptions};
@@ -86,6 +87,15 @@ fn main() {
             for r in recs {
                 writeln!(out, "{}", serde_json::to_string(&r).unwrap()).unwrap();
             }
+        }
+        "session-replay" => {
+            // driver session-replay <histories> <events> <meta.json>
+            let meta: Value = serde_json::from_str(&std::fs::read_to_string(&args[4]).unwrap_or_default()).unwrap_or(Value::Null);
+            session::replay(&args[2], &args[3], &meta);
+        }
+        "session-random" => {
+            let seed: u64 = args[2].parse().unwrap_or(0);
+            session::random(seed, args[3].parse().unwrap_or(1), args[4].parse().unwrap_or(10), &args[5]);
         }
         "ast" => {
             // debugging aid: driver ast '<expr>' ['<json doc>']
